@@ -21,11 +21,11 @@ Definition key := (N * N)%type.                    (* (cluster, ip) *)
 Definition key_eqb (a b : key) : bool := (fst a =? fst b) && (snd a =? snd b).
 
 Record sm := mkSM {
-  max : N; nb : N; can_accept : bool; slab : N; limit : N;
+  max : N; nb : N; can_accept : bool; slab : N; base : N; limit : N;
   fwd : list (key * N);
   rev : list (N * list key) }.
 
-Definition sm_new (mx lim : N) : sm := mkSM mx 0 true 0 lim [] [].
+Definition sm_new (mx lim : N) : sm := mkSM mx 0 true 0 0 lim [] [].
 
 Fixpoint fwd_get (k : key) (l : list (key * N)) : N :=
   match l with
@@ -77,7 +77,7 @@ Fixpoint rev_remove (tok : N) (l : list (N * list key)) : list (N * list key) :=
   end.
 
 Definition set_maps (s : sm) (f : list (key * N)) (r : list (N * list key)) : sm :=
-  mkSM (max s) (nb s) (can_accept s) (slab s) (limit s) f r.
+  mkSM (max s) (nb s) (can_accept s) (slab s) (base s) (limit s) f r.
 
 (** [track_cluster_ip]: idempotent per token *)
 Definition track (s : sm) (tok : N) (k : key) : sm :=
@@ -91,17 +91,25 @@ Definition untrack_all (s : sm) (tok : N) : sm :=
 (** [clear_cluster_ip_tracking] *)
 Definition clear_tracking (s : sm) : sm := set_maps s [] [].
 
-(** [at_capacity]: [slab.len() >= 10 + 2 * max_connections] *)
-Definition at_capacity (s : sm) : bool := 10 + 2 * max s <=? slab s.
+(** [at_capacity]: [slab.len() >= 10 + 2 * max_connections], where the entries
+    that are not sessions ([base]: channel, metrics, timer, listeners) beyond the
+    10 reserved for them do not count against the sessions' budget (after the
+    fix; before it a worker with more than 10 of them and a small
+    [max_connections] was at capacity with no session at all) *)
+Definition at_capacity (s : sm) : bool :=
+  if slab s <? 10 + 2 * max s then false
+  else 10 + 2 * max s + (base s - 10) <=? slab s.
 
 Definition set_accept (s : sm) (b : bool) : sm :=
-  mkSM (max s) (nb s) b (slab s) (limit s) (fwd s) (rev s).
+  mkSM (max s) (nb s) b (slab s) (base s) (limit s) (fwd s) (rev s).
 Definition set_nb (s : sm) (n : N) : sm :=
-  mkSM (max s) n (can_accept s) (slab s) (limit s) (fwd s) (rev s).
+  mkSM (max s) n (can_accept s) (slab s) (base s) (limit s) (fwd s) (rev s).
 Definition set_slab (s : sm) (n : N) : sm :=
-  mkSM (max s) (nb s) (can_accept s) n (limit s) (fwd s) (rev s).
+  mkSM (max s) (nb s) (can_accept s) n (base s) (limit s) (fwd s) (rev s).
+Definition set_base (s : sm) (n : N) : sm :=
+  mkSM (max s) (nb s) (can_accept s) (slab s) n (limit s) (fwd s) (rev s).
 Definition set_limit (s : sm) (n : N) : sm :=
-  mkSM (max s) (nb s) (can_accept s) (slab s) n (fwd s) (rev s).
+  mkSM (max s) (nb s) (can_accept s) (slab s) (base s) n (fwd s) (rev s).
 
 (** [check_limits] *)
 Definition check_limits (s : sm) : sm * bool :=
@@ -126,7 +134,7 @@ Definition decr (s : sm) : option sm :=
 (* ------------------------------------------------------------------ *)
 (** * The driver's operations (call-site disciplines) *)
 
-Record state := mkSt { st_sm : sm; live : list N; filler : N; panicked : bool }.
+Record state := mkSt { st_sm : sm; live : list N; filler : N; backs : N; panicked : bool }.
 
 Inductive op :=
 | ONew (mx lim : N)
@@ -136,6 +144,8 @@ Inductive op :=
 | OSetLimit (n : N)
 | OFill (n : N)
 | OUnfill (n : N)
+| OBackfill (n : N)
+| OUnbackfill (n : N)
 | OCheck.
 
 Definition lmem (t : N) (l : list N) : bool := existsb (N.eqb t) l.
@@ -151,18 +161,18 @@ Definition accept (st : state) (tok : N) : state :=
     let '(s1, ok) := check_limits s in
     if ok then
       match incr (set_slab s1 (slab s1 + 1)) with
-      | Some s2 => mkSt s2 (live st ++ [tok]) (filler st) (panicked st)
-      | None => mkSt s1 (live st) (filler st) true
+      | Some s2 => mkSt s2 (live st ++ [tok]) (filler st) (backs st) (panicked st)
+      | None => mkSt s1 (live st) (filler st) (backs st) true
       end
-    else mkSt s1 (live st) (filler st) (panicked st).
+    else mkSt s1 (live st) (filler st) (backs st) (panicked st).
 
 (** teardown: slab remove, [close()] -> [untrack_all_cluster_ip], [decr] *)
 Definition close (st : state) (tok : N) : state :=
   let s := st_sm st in
   if lmem tok (live st) then
     match decr (untrack_all (set_slab s (slab s - 1)) tok) with
-    | Some s2 => mkSt s2 (lremove tok (live st)) (filler st) (panicked st)
-    | None => mkSt s (live st) (filler st) true
+    | Some s2 => mkSt s2 (lremove tok (live st)) (filler st) (backs st) (panicked st)
+    | None => mkSt s (live st) (filler st) (backs st) true
     end
   else st.
 
@@ -171,28 +181,38 @@ Definition gate_track (st : state) (tok : N) (k : key) (ov : option N) : state :
   let s := st_sm st in
   if negb (lmem tok (live st)) then st
   else if at_limit s tok k ov then st
-  else mkSt (track s tok k) (live st) (filler st) (panicked st).
+  else mkSt (track s tok k) (live st) (filler st) (backs st) (panicked st).
 
 (** the [SetMaxConnectionsPerIp] handler *)
 Definition set_limit_op (st : state) (n : N) : state :=
   let s := set_limit (st_sm st) n in
-  mkSt (if n =? 0 then clear_tracking s else s) (live st) (filler st) (panicked st).
+  mkSt (if n =? 0 then clear_tracking s else s) (live st) (filler st) (backs st) (panicked st).
 
 Definition apply_op (st : state) (o : op) : state :=
   match o with
-  | ONew mx lim => mkSt (sm_new mx lim) [] 0 false
+  | ONew mx lim => mkSt (sm_new mx lim) [] 0 0 false
   | OAccept t => accept st t
   | OClose t => close st t
   | OTrack t k ov => gate_track st t k ov
   | OSetLimit n => set_limit_op st n
-  | OFill n => mkSt (set_slab (st_sm st) (slab (st_sm st) + n)) (live st) (filler st + n) (panicked st)
+  | OFill n =>
+    (* n more entries that are not sessions (listeners, channel, ...) *)
+    let s := st_sm st in
+    mkSt (set_base (set_slab s (slab s + n)) (base s + n)) (live st) (filler st + n) (backs st) (panicked st)
   | OUnfill n =>
     let k := N.min n (filler st) in
-    mkSt (set_slab (st_sm st) (slab (st_sm st) - k)) (live st) (filler st - k) (panicked st)
-  | OCheck => mkSt (fst (check_limits (st_sm st))) (live st) (filler st) (panicked st)
+    let s := st_sm st in
+    mkSt (set_base (set_slab s (slab s - k)) (base s - k)) (live st) (filler st - k) (backs st) (panicked st)
+  | OBackfill n =>
+    (* n more session-side entries (the backend tokens of live sessions) *)
+    mkSt (set_slab (st_sm st) (slab (st_sm st) + n)) (live st) (filler st) (backs st + n) (panicked st)
+  | OUnbackfill n =>
+    let k := N.min n (backs st) in
+    mkSt (set_slab (st_sm st) (slab (st_sm st) - k)) (live st) (filler st) (backs st - k) (panicked st)
+  | OCheck => mkSt (fst (check_limits (st_sm st))) (live st) (filler st) (backs st) (panicked st)
   end.
 
-Definition init : state := mkSt (sm_new 0 0) [] 0 false.
+Definition init : state := mkSt (sm_new 0 0) [] 0 0 false.
 Definition run_ops (st : state) (ops : list op) : state := fold_left apply_op ops st.
 
 (* ------------------------------------------------------------------ *)
